@@ -256,7 +256,9 @@ def run(prog, ctx):
             ok_s = True
     if not ok_s:
         problems.append("set_combi_parameters does not build the scheme from getCombiScheme(lmin, lmax)")
-    if not R.calls_in(po.node, method="set_combi_parameters"):
+    inlined_scheme = any(s_.kind == "plain" and s_.value is not None and tmp.term(s_.value)[0] == "call" and tmp.term(s_.value)[1][0] == "a"
+                         and tmp.term(s_.value)[1][2] == "getCombiScheme" for s_ in R.self_stores(po, "scheme"))
+    if not R.calls_in(po.node, method="set_combi_parameters") and not inlined_scheme:
         problems.append("perform_operation does not set the combination parameters")
     ctx.check(not problems, "C02.D2", R.key_of(po, "order"), po.loc(),
               "initialize -> loop over the whole scheme -> get_result, and the result read after the loop is returned",
